@@ -179,13 +179,13 @@ def group_collisions(ctx, tables, thorough):
 
 def run(ctx):
     quick = ctx.tier == "quick"
-    n = 8000 if quick else 200000
+    n = 8000 if quick else 120000
     ctx.rule = ("values from the vp.gen_values grammar (scalars, nested containers incl. sets of frozensets and "
                 "dicts keyed by them, attrs/plain/slots objects, types, functions, numpy arrays/scalars, subclasses of "
                 "builtins); each is hashed alone, rebuilt in 3 other insertion orders, against a one-aspect mutation, and "
                 "inside 4 embeddings; non-trivial = container/array/object value; distinct = distinct value specs")
     cases = [{"lo": i, "hi": min(n, i + PER)} for i in range(0, n, PER)]
-    res = ctx.pmap("vp.props.c08:batch", cases, nproc=8 if quick else 16, timeout=150 if quick else 1500)
+    res = ctx.pmap("vp.props.c08:batch", cases, nproc=8 if quick else 16, timeout=600 if quick else 3000)
     tables = [r.pop("table") for r in res if isinstance(r, dict) and "table" in r]
     ctx.record_all(res)
     ctx.record_all(group_collisions(ctx, tables, not quick))
